@@ -59,8 +59,11 @@ Inductive op :=
 | OPush (auth : option nat) (body_client : option nat) (has_request_uri : bool) (a : authz)
 | OAuthorizePAR (client_param : nat) (uri : pres) (a : authz)
 | ODeviceAuth (auth : option nat) (body_client : nat) (scopes : list string) (aud : list aurl)
-| ODecide (dev : pres) (accept : bool) (granted : list string) (gaud : list aurl) (subject : string)
-| ODevicePoll (auth : option nat) (dev : pres).
+| ODecide (dev : pres) (accept : bool) (granted : list string) (gaud : list aurl) (subject : string) (fresh_session : bool)
+| ODevicePoll (auth : option nat) (dev : pres)
+(* a token request whose grant_type is not exactly one of the registered grant types (e.g. another letter case):
+   no handler is responsible (access_request_handler.go / access_response_writer.go) *)
+| OTokenOther (auth : option nat).
 
 (* ------------------------------------------------------------------ small helpers *)
 Definition scopes_ok (cfg : config) (cl : client) (scopes : list string) : bool :=
@@ -358,8 +361,10 @@ Definition device_authorize (cfg : config) (s : state) (auth : option nat) (body
 
 (* the embedding application's verification page: validates the user code (expiry) and records the
    decision, the granted scopes / audience and the subject on the stored request *)
+(* [fresh_session]: the application replaces the stored request's session by its own (the signed-in user's), which
+   carries no device/user-code expiry: validation then falls back to requested_at + the configured lifespan *)
 Definition decide (cfg : config) (s : state) (dev : pres) (accept : bool) (granted : list string) (gaud : list aurl)
-           (subject : string) : state * obs :=
+           (subject : string) (fresh_session : bool) : state * obs :=
   match key_of s dev with
   | None => fail s "not_found"
   | Some k =>
@@ -372,7 +377,7 @@ Definition decide (cfg : config) (s : state) (dev : pres) (accept : bool) (grant
         let r' := {| r_id := r_id r; r_client := r_client r; r_cl := r_cl r; r_rscopes := r_rscopes r; r_gscopes := granted;
                      r_raud := r_raud r; r_gaud := gaud;
                      r_sess := {| s_subject := subject; s_exp_code := s_exp_code se; s_exp_at := s_exp_at se;
-                                  s_exp_rt := s_exp_rt se; s_exp_dev := s_exp_dev se |};
+                                  s_exp_rt := s_exp_rt se; s_exp_dev := if fresh_session then None else s_exp_dev se |};
                      r_redirect := ""; r_challenge := ""; r_method := ""; r_at := r_at r |} in
         (set_store s (put_device (st s) k ((if accept then 1 else 2), r')), ok_obs [] 0%Z [])
   end end.
@@ -638,10 +643,13 @@ Definition caller_ok (cfg : config) (s : state) (cal : caller) (tok : pres) : bo
            end
   end.
 
+(* the token use an introspection reports (TokenUse), carried in the scope field of the observation *)
+Definition use_name (k : ckind) : string := match k with KRefresh => "refresh_token" | _ => "access_token" end.
+
 Definition introspect_ep (cfg : config) (s : state) (cal : caller) (tok : pres) (h : hint) (scopes : list string) : obs :=
   if negb (caller_ok cfg s cal tok) then err_obs "request_unauthorized"
   else match introspect cfg s tok h scopes with
-       | Some _ => ok_obs [] 0%Z []
+       | Some p => ok_obs [] 0%Z [use_name (pl_use p)]
        | None => err_obs "token_inactive"
        end.
 
@@ -654,7 +662,7 @@ Definition step (cfg : config) (s : state) (o : op) : state * obs :=
   | ORevoke auth tok h => revoke cfg s auth tok h
   | OIntrospect tok h scopes =>
       (s, match introspect cfg s tok h scopes with
-          | Some _ => ok_obs [] 0%Z []
+          | Some p => ok_obs [] 0%Z [use_name (pl_use p)]
           | None => err_obs "inactive"
           end)
   | OAdvance ms => (set_now s (now s + ms)%Z, ok_obs [] 0%Z [])
@@ -665,8 +673,9 @@ Definition step (cfg : config) (s : state) (o : op) : state * obs :=
   | OPush auth bc ru a => push cfg s auth bc ru a
   | OAuthorizePAR cp uri a => authorize_par cfg s cp uri a
   | ODeviceAuth auth bc sc au => device_authorize cfg s auth bc sc au
-  | ODecide dev acc g ga sub => decide cfg s dev acc g ga sub
+  | ODecide dev acc g ga sub fr => decide cfg s dev acc g ga sub fr
   | ODevicePoll auth dev => device_poll cfg s auth dev
+  | OTokenOther _ => (s, err_obs "invalid_request")   (* no handler is responsible: the client's authentication result is not even looked at *)
   end.
 
 (* the client a request is made for and what it asks for, for every operation that carries a requested scope/audience *)
